@@ -16,10 +16,12 @@ CLAIMS = {
             "nodes and of functions of arity <= 2 (left fold of + - * /, unary sign, **, variables, literals, pi, Conditional, "
             "ContinuousConditional), binary_op/unary_op/relational_to_piecewise/Conditional meanings, CodeGenerator.rhs emits exactly "
             "rhs_emit over sorted_assignments with the unpack statements of the sorted states/parameters; lemma L2 (induction): executing a "
-            "single-assignment statement list in dependency order leaves every target equal to the value of its definition. Bounded (skeleton instances): "
+            "single-assignment statement list in dependency order leaves every target equal to the value of its definition; lemma L3 (induction): executing "
+            "rhs_emit leaves in slot count_sd(i) the value of the i-th assignment's expression for every state derivative i (cells of `values` as "
+            "locations of the same environment). Bounded (skeleton instances): "
             "numpy printer overrides and the python method template. Assumed: sympy constructors/printer, lark precedence. "
             "Bounded stand-in: 400+ generated models against an independent reference evaluator.",
-            "environment algebra of L2 (update / frame) assumed; composition L3 of L1, L2 and the emit specs into one statement about the printed text is a paper argument"),
+            "environment algebra of L2/L3 (update, frame, distinct array cells do not alias) assumed; that the printed text denotes the Stmt list (printer, template) is assumed/bounded"),
     "C02": ("proof", "Proved: C argument builders exhaustively over all 6+24 argument orders, gotran2c.get_code assembles every part with every option, "
             "emission functions shared with C01/C04. Bounded: C templates compiled and called on instances (index functions return the table entry "
             "and -1). The C-specific arithmetic clauses (integer literals, fmod sign, abs on integers) are decided only by the bounded stand-in, "
@@ -38,7 +40,7 @@ CLAIMS = {
     "C05": ("proof", "Proved: explicit_euler emits, per derivative, values[slot] = state + dt*derivative after the definitions (loop invariant, "
             "all models); the four aliases map to it and the emitted function is named as requested without touching the module-level function; "
             "CodeGenerator.scheme unpacks all states and forwards remove_unused; add_schemes calls it once per member.",
-            "printer and template meaning assumed/bounded; the numeric relation to rhs follows from the same emission specs (lemma L3 not machine-proved)"),
+            "printer and template meaning assumed/bounded; lemma L3.euler (induction): executing euler_emit leaves state + dt * (value of the derivative expression) in the state's slot, state and dt being the input values"),
     "C06": ("proof", "Proved: generalized_rush_larsen emits grl_emit (Euler when is_zero(g), else linearised symbol + RL term, guard unless "
             "fraction_numerator_is_nonzero); fraction_numerator_is_nonzero(e) implies den(e) != 0 wherever the reciprocals of e are defined "
             "(denotational contract, induction lemmas); lemma L4: the emitted term denotes (f/g)(exp(g dt)-1) guarded by |g| > delta with the "
